@@ -7,6 +7,8 @@ prefix of the input byte for byte (hand-written `compute_*` fields are re-suppli
 `ok name=v name=[a,b] name=[(a.b),(c.d)] … | 1`; `err:parse` when the layout does not fit the bytes;
 `uncovered` when the translator has no pair for the type. -/
 import FontVerif.Model.Field
+import FontVerif.Model.ValueRecord
+import FontVerif.Model.NameStr
 import FontVerif.Gen.WriteProgs
 namespace FontVerif.Drv.C04
 open FontVerif FontVerif.Field
@@ -52,8 +54,58 @@ def rt (ty : String) (bytes : Bytes) : String :=
       let fs := if fields.isEmpty then "-" else " ".intercalate fields
       s!"ok {fs} | {if again then 1 else 0}"
 
+/-- `-` = `None`, else a decimal number -/
+def optNat? (s : String) : Option (Option Nat) :=
+  if s == "-" then some none else (parseNat? s).map some
+
+def showOpt : Option Nat → String
+  | none => "-"
+  | some v => toString v
+
+/-- `vr <explicit|-> <xp> <yp> <xa> <ya> <d1> <d2> <d3> <d4>` (each `-` or a number; a device slot is the offset the
+packer assigned): `<format> <written bytes> <encoded size> | <re-read owned record, same nine fields>` -/
+def vr (args : List (Option Nat)) : Option String :=
+  match args with
+  | [e, a, b, c, d, p, q, r, s] =>
+    let o : ValueRecord.Owned := { explicitFormat := e, xPlacement := a, yPlacement := b, xAdvance := c, yAdvance := d,
+                                   xPlaDev := p, yPlaDev := q, xAdvDev := r, yAdvDev := s }
+    let f := ValueRecord.format o
+    let bs := ValueRecord.write o
+    let back :=
+      match ValueRecord.read f bs with
+      | some (pr, []) =>
+        let w := ValueRecord.toOwned pr
+        " ".intercalate ([w.explicitFormat, w.xPlacement, w.yPlacement, w.xAdvance, w.yAdvance, w.xPlaDev, w.yPlaDev,
+          w.xAdvDev, w.yAdvDev].map showOpt)
+      | some (_, _ :: _) => "err:trailing"
+      | none => "err:OutOfBounds"
+    some s!"{f} {toHex bs} {ValueRecord.encodedSize f} | {back}"
+  | _ => none
+
+def showEnc : NameStr.Encoding → String
+  | .utf16be => "Utf16Be"
+  | .macRoman => "MacRoman"
+  | .unknown => "Unknown"
+
+/-- `ns <platform> <encoding> <code points…|->`: `<Encoding> <compute_length|trap> <string bytes|trap> | <decoded chars>` -/
+def ns (platform encoding : Nat) (cps : List Nat) : String :=
+  let enc := NameStr.Encoding.new platform encoding
+  -- `NameStringAndLenWriter::write_into` computes the length first, then the string object is written: either panic
+  -- aborts the compilation
+  match NameStr.computeLength enc cps, NameStr.encodeString enc cps with
+  | some len, some bs => s!"{showEnc enc} {len} {toHex bs} | {joinInts ((NameStr.decodeString enc bs).map Int.ofNat)}"
+  | _, _ => s!"{showEnc enc} trap trap | -"
+
 def handle (cmd : String) (args : List String) : Option String :=
   match cmd, args with
+  | "vr", _ =>
+    match args.mapM optNat? with
+    | some xs => vr xs
+    | none => none
+  | "ns", p :: e :: cps =>
+    match parseNat? p, parseNat? e, (if cps == ["-"] then some [] else parseNats? cps) with
+    | some p, some e, some cps => some (ns p e cps)
+    | _, _, _ => none
   | "rt", [ty, hex] =>
     match parseHex? hex with
     | some bs => some (rt ty bs)
